@@ -165,7 +165,7 @@ func c10ForkCases(rng *rand.Rand) []c10ForkCase {
 	}
 	// ---- run time: the map (of maps) is the output of an upstream stage ----
 	{
-		keys := c10ForkKeys(rng, 4+rng.Intn(9), map[string]bool{})
+		keys := c10ForkKeys(rng, 9+rng.Intn(4), map[string]bool{}) // > 8: more than one bucket, no rotation-only orders
 		m := map[string]int{}
 		for i, k := range keys {
 			m[k] = i
